@@ -683,9 +683,18 @@ where
     let config = Config { failure_persistence: None, cases: 1, ..Config::default() };
     let rng = rng_from_seed(splitmix(ctx.seed ^ (w.wrapping_mul(0xA24BAED4963EE407))));
     let mut runner = TestRunner::new_with_rng(config, rng);
-    for _ in 0..cases {
+    for n in 0..cases {
         if ctx.stop.load(Ordering::SeqCst) {
             return;
+        }
+        if n % 128 == 127 {
+            // long runs: hand freed heap pages back to the OS (16 worker arenas otherwise keep growing)
+            extern "C" {
+                fn malloc_trim(pad: usize) -> i32;
+            }
+            unsafe {
+                malloc_trim(0);
+            }
         }
         let mut tree = match strategy.new_tree(&mut runner) {
             Ok(t) => t,
